@@ -9,9 +9,19 @@
    Only statements here; every proof is `exact <lemma>` into Index/*Proofs.v.  The models
    (Index/ArrIndex.v, SliceRange.v, StrIndex.v, Shapes.v) mirror back/object.c and
    back/vmexec.c statement by statement and are tied to the tree by checks/c12.py.
-   `…_refuted` theorems exhibit inputs on which the mirrored code does NOT have the property
-   (each witness is replayed on the real VM by the check; they are the known findings
-   range_deref:int-overflow and array_deref:extent-product-overflow). *)
+   No `…_refuted` theorem (an input on which the mirrored code does NOT have the property) is
+   left.  `…_regression` theorems state the property on the witnesses of a former `_refuted`
+   theorem whose finding has been fixed in the tree:
+     range_deref:int-overflow (fix acecad0): vm_get_slice_range forms range_from +- index in 64
+       bits and tests the bounds on the exact values.  The range and slice theorems hold for ALL
+       int bounds and indices: the hypotheses no_wrap / compose_ok / inner_ok are gone.
+     array_deref:extent-product-overflow (fix 1f9996a): MK_ARRAY and the matrix product refuse
+       extents whose product does not fit unsigned int (object_arr_dim_fits, wrong_array_size).
+       mk_array_deref_spec / mk_array_slice_deref_spec / the matrix-product clause of
+       shape_conformance state the property for every array the VM creates, with no hypothesis
+       on the product; the theorems about object_arr_dim_mult / object_arr_dim_addr themselves
+       (dim_addr_row_major, array_deref_spec on mk_arr) keep it, that function still wraps.
+   The witnesses are generated and run on the real VM by the check on every seed. *)
 From Coq Require Import ZArith List Bool.
 From NV Require Import Index.W32 Index.ArrIndex Index.SliceRange Index.StrIndex Index.Shapes
   Index.IndexSpec Index.ArrIndexProofs Index.SliceRangeProofs Index.StrIndexProofs Index.ShapesProofs.
@@ -60,20 +70,62 @@ Theorem array_deref_spec : forall exts idx,
 Proof. exact ArrIndexProofs.array_deref_spec. Qed.
 Print Assumptions array_deref_spec.
 
-(* without the bound on the product the property fails: {[65536, 65536]} has 0 cells, index
-   [1, 1] passes the guards and element 0 of an empty value[] is read *)
-Theorem dim_mult_overflow_refuted :
-  exists exts idx, Forall ext_ok exts /\ in_range exts idx /\
-    exists k, array_deref (Some (mk_arr exts)) idx = Ok k /\ arr_elems exts <= k.
-Proof. exact ArrIndexProofs.dim_mult_overflow_refuted. Qed.
-Print Assumptions dim_mult_overflow_refuted.
+(* object_arr_dim_fits on positive extents: true exactly when the product fits unsigned int *)
+Theorem dim_fits_spec : forall exts, Forall (fun n => 0 < n) exts ->
+  (dim_fits exts = true <-> prodZ exts < two32).
+Proof. exact ArrIndexProofs.dim_fits_spec. Qed.
+Print Assumptions dim_fits_spec.
+
+(* the MK_ARRAY handler: a non-positive extent raises index_out_of_bounds naming it, a product
+   that does not fit raises wrong_array_size, otherwise the array has exactly prod(extents) cells *)
+Theorem mk_array_spec : forall exts, Forall is_s32 exts ->
+  (Forall (fun n => 0 < n) exts -> prodZ exts < two32 ->
+     mk_array exts = Ok (mk_arr exts, prodZ exts) /\ arr_elems exts = prodZ exts) /\
+  (Forall (fun n => 0 < n) exts -> two32 <= prodZ exts -> mk_array exts = Exc WrongArraySize) /\
+  (~ Forall (fun n => 0 < n) exts ->
+     exists d, mk_array exts = Exc (IndexOob (Z.of_nat d)) /\ (d < length exts)%nat /\ nthZ exts d <= 0) /\
+  (forall dv elems, mk_array exts = Ok (dv, elems) ->
+     Forall (fun n => 0 < n) exts /\ prodZ exts < two32 /\ dv = mk_arr exts /\ elems = prodZ exts).
+Proof. exact ArrIndexProofs.mk_array_spec. Qed.
+Print Assumptions mk_array_spec.
+
+(* C12 for every array the VM creates, no hypothesis on the product: an in-range index tuple
+   denotes the row-major element and that element lies inside value[0 .. elems); any other tuple
+   raises index_out_of_bounds naming an offending dimension *)
+Theorem mk_array_deref_spec : forall exts dv elems idx,
+  Forall is_s32 exts -> Forall is_s32 idx -> length idx = length exts ->
+  mk_array exts = Ok (dv, elems) ->
+  (in_range exts idx ->
+     array_deref (Some dv) idx = Ok (row_major exts idx) /\ 0 <= row_major exts idx < elems) /\
+  (~ in_range exts idx ->
+     exists d, array_deref (Some dv) idx = Exc (IndexOob (Z.of_nat d)) /\
+               (d < length exts)%nat /\ (nthZ idx d < 0 \/ nthZ exts d <= nthZ idx d)).
+Proof. exact ArrIndexProofs.mk_array_deref_spec. Qed.
+Print Assumptions mk_array_deref_spec.
+
+(* regression, former witness of dim_mult_overflow_refuted (finding
+   array_deref:extent-product-overflow): {[65536, 65536]} got 0 cells and no value[] while
+   [1, 1] passed the guards; 3 * 1431655766 wrapped to 2 cells with all multipliers 0 *)
+Theorem dim_mult_overflow_regression :
+  mk_array [65536; 65536] = Exc WrongArraySize /\
+  mk_array [65537; 65537] = Exc WrongArraySize /\
+  mk_array [3; 1431655766] = Exc WrongArraySize /\
+  mk_array [46341; 46341; 2] = Exc WrongArraySize /\
+  mk_array [2147483647; 3] = Exc WrongArraySize /\
+  mk_array [2147483647; 2147483647; 2147483647] = Exc WrongArraySize /\
+  mk_array [65535; 65537] = Ok ([(65535, 65537); (65537, 1)], 4294967295) /\
+  mk_array [65536; 65535] = Ok ([(65536, 65535); (65535, 1)], 4294901760) /\
+  mk_array [2; 0] = Exc (IndexOob 1) /\ mk_array [-1; 65536] = Exc (IndexOob 0).
+Proof. exact ArrIndexProofs.dim_mult_overflow_regression. Qed.
+Print Assumptions dim_mult_overflow_regression.
 
 (* ---- ranges and slices ----------------------------------------------------------------------- *)
 
-(* [a..b][c..d], all four direction cases; a negative inner bound is refused by the guard, so the
-   only hypothesis left is that the int additions do not wrap when both bounds are >= 0 *)
+(* [a..b][c..d], all four direction cases, all int bounds: the composition is refused exactly
+   when an inner bound is not an index of [a..b] (negative, or too large by any amount), otherwise
+   the result denotes [a..b][ [c..d][k] ] position by position *)
 Theorem slice_range_denotes : forall a b c d rf rt oob,
-  is_s32 a -> is_s32 b -> (0 <= c -> 0 <= d -> compose_ok a c d) ->
+  is_s32 a -> is_s32 b ->
   get_slice_range a b c d = (rf, rt, oob) ->
   (oob = false <-> 0 <= c < range_len a b /\ 0 <= d < range_len a b) /\
   (oob = false ->
@@ -85,17 +137,39 @@ Theorem slice_range_denotes : forall a b c d rf rt oob,
 Proof. exact SliceRangeProofs.slice_range_denotes. Qed.
 Print Assumptions slice_range_denotes.
 
-(* an index beyond the end of a range near INT_MAX wraps and is accepted *)
-Theorem slice_range_overflow_refuted :
-  exists a b i rf rt,
-    is_s32 a /\ is_s32 b /\ is_s32 i /\ 0 <= i /\ ~ (i < range_len a b) /\
-    get_slice_range a b i i = (rf, rt, false).
-Proof. exact SliceRangeProofs.slice_range_overflow_refuted. Qed.
-Print Assumptions slice_range_overflow_refuted.
+(* an index at or beyond the length of the range is refused whatever the magnitudes, and
+   res_from / res_to keep the caller's preset 0 *)
+Theorem slice_range_index_out : forall a b i,
+  range_len a b <= i -> get_slice_range a b i i = (0, 0, true).
+Proof. exact SliceRangeProofs.gsr_index_out. Qed.
+Print Assumptions slice_range_index_out.
+
+(* the results are ints (the narrowing (int)from is exact) and untouched when oob is reported *)
+Theorem slice_range_results : forall a b c d rf rt oob,
+  get_slice_range a b c d = (rf, rt, oob) ->
+  is_s32 rf /\ is_s32 rt /\ (oob = true -> rf = 0 /\ rt = 0).
+Proof. exact SliceRangeProofs.slice_range_results. Qed.
+Print Assumptions slice_range_results.
+
+(* regression, former witnesses of slice_range_overflow_refuted (finding range_deref:int-overflow):
+   an index far beyond the end of a range next to INT_MAX (ascending) or INT_MIN (descending) *)
+Theorem slice_range_overflow_regression :
+  get_slice_range 2147483640 2147483647 20 20 = (0, 0, true) /\
+  get_slice_range (-2147483640) (-2147483647) 20 20 = (0, 0, true) /\
+  get_slice_range (-2147483648) (-2147483648) 2147483647 2147483647 = (0, 0, true) /\
+  get_slice_range 2147483647 2147483647 2147483647 2147483647 = (0, 0, true) /\
+  get_slice_range 2147483640 2147483647 3 20 = (0, 0, true) /\
+  get_slice_range 2147483640 2147483647 20 3 = (0, 0, true) /\
+  get_slice_range (-2147483640) (-2147483647) 3 20 = (0, 0, true) /\
+  get_slice_range (-2147483640) (-2147483647) 20 3 = (0, 0, true) /\
+  get_slice_range 2147483640 2147483647 7 7 = (2147483647, 2147483647, false) /\
+  get_slice_range (-2147483641) (-2147483648) 7 7 = (-2147483648, -2147483648, false).
+Proof. exact SliceRangeProofs.slice_range_overflow_regression. Qed.
+Print Assumptions slice_range_overflow_regression.
 
 (* SLICE_RANGE / SLICE_SLICE over all dimensions *)
 Theorem compose_ranges_denotes : forall r1 r2,
-  range_s32 r1 -> length r1 = length r2 -> inner_ok r1 r2 ->
+  range_s32 r1 -> length r1 = length r2 ->
   (inner_within r1 r2 ->
      exists r, compose_ranges r1 r2 = Ok r /\ range_s32 r /\ length r = length r2 /\
        forall idx, idx_in_ranges r2 idx ->
@@ -105,19 +179,26 @@ Theorem compose_ranges_denotes : forall r1 r2,
 Proof. exact SliceRangeProofs.compose_ranges_denotes. Qed.
 Print Assumptions compose_ranges_denotes.
 
-(* RANGE_DEREF *)
+(* RANGE_DEREF: every index inside its range selects the denoted position; any other index, of
+   whatever magnitude, raises index_out_of_bounds *)
 Theorem range_deref_spec : forall r idx,
   range_s32 r -> Forall is_s32 idx -> length idx = length r ->
   (idx_in_ranges r idx -> range_deref (Some r) idx = Ok (ranges_nth r idx)) /\
-  (~ idx_in_ranges r idx -> no_wrap r idx -> exists d, range_deref (Some r) idx = Exc (IndexOob d)).
+  (~ idx_in_ranges r idx -> exists d, range_deref (Some r) idx = Exc (IndexOob d)).
 Proof. exact SliceRangeProofs.range_deref_spec. Qed.
 Print Assumptions range_deref_spec.
 
-Theorem range_deref_overflow_refuted :
-  exists r idx v, range_s32 r /\ Forall is_s32 idx /\ ~ idx_in_ranges r idx /\
-                  range_deref (Some r) idx = Ok v.
-Proof. exact SliceRangeProofs.range_deref_overflow_refuted. Qed.
-Print Assumptions range_deref_overflow_refuted.
+(* regression, former witness of range_deref_overflow_refuted: [2147483640..2147483647][20]
+   returned -2147483636, [-2147483640..-2147483647][20] returned 2147483636 *)
+Theorem range_deref_overflow_regression :
+  range_deref (Some [(2147483640, 2147483647)]) [20] = Exc (IndexOob 0) /\
+  range_deref (Some [(-2147483640, -2147483647)]) [20] = Exc (IndexOob 0) /\
+  range_deref (Some [(-2147483648, -2147483648)]) [2147483647] = Exc (IndexOob 0) /\
+  range_deref (Some [(1, 5); (2147483640, 2147483647)]) [2; 2147483647] = Exc (IndexOob 1) /\
+  range_deref (Some [(2147483640, 2147483647)]) [7] = Ok [2147483647] /\
+  range_deref (Some [(-2147483641, -2147483648)]) [7] = Ok [-2147483648].
+Proof. exact SliceRangeProofs.range_deref_overflow_regression. Qed.
+Print Assumptions range_deref_overflow_regression.
 
 (* SLICE_DEREF on a slice of an array built by the VM *)
 Theorem slice_deref_spec : forall exts r idx,
@@ -128,9 +209,29 @@ Theorem slice_deref_spec : forall exts r idx,
      slice_deref s idx = Ok (row_major exts (ranges_nth r idx))) /\
   (idx_in_ranges r idx -> ~ in_range exts (ranges_nth r idx) ->
      exists d, slice_deref s idx = Exc (IndexOob d)) /\
-  (~ idx_in_ranges r idx -> no_wrap r idx -> exists d, slice_deref s idx = Exc (IndexOob d)).
+  (~ idx_in_ranges r idx -> exists d, slice_deref s idx = Exc (IndexOob d)).
 Proof. exact SliceRangeProofs.slice_deref_spec. Qed.
 Print Assumptions slice_deref_spec.
+
+(* regression, slice variants of the same finding: through a descending slice range at INT_MIN
+   the difference INT_MIN - INT_MAX wrapped to +1 (-2147483643 - INT_MAX to 6), passed the bound
+   test and element 1 (6) of the array was returned; SLICE_SLICE / SLICE_RANGE of such a range
+   with [INT_MAX..INT_MAX] produced [1..1] *)
+Theorem slice_deref_overflow_regression :
+  let sl a b := Some {| sl_arr := Some (mk_arr [8]); sl_range := Some [(a, b)] |} in
+  slice_deref (sl (-2147483648) (-2147483648)) [2147483647] = Exc (IndexOob 0) /\
+  slice_deref (sl (-2147483643) (-2147483648)) [2147483647] = Exc (IndexOob 0) /\
+  slice_deref (sl 2147483640 2147483647) [20] = Exc (IndexOob 0) /\
+  slice_deref (sl 0 7) [2147483647] = Exc (IndexOob 0) /\
+  slice_deref (sl 7 0) [2147483647] = Exc (IndexOob 0) /\
+  slice_slice (sl (-2147483648) (-2147483648)) (Some [(2147483647, 2147483647)]) = Exc (IndexOob (-1)) /\
+  slice_slice (sl 2147483640 2147483647) (Some [(3, 20)]) = Exc (IndexOob (-1)) /\
+  slice_range (Some [(-2147483648, -2147483648)]) (Some [(2147483647, 2147483647)]) = Exc (IndexOob (-1)) /\
+  slice_range (Some [(2147483640, 2147483647)]) (Some [(20, 3)]) = Exc (IndexOob (-1)) /\
+  slice_deref (sl 0 7) [7] = Ok 7 /\ slice_deref (sl 7 0) [7] = Ok 0 /\
+  slice_range (Some [(2147483640, 2147483647)]) (Some [(7, 0)]) = Ok [(2147483647, 2147483640)].
+Proof. exact SliceRangeProofs.slice_deref_overflow_regression. Qed.
+Print Assumptions slice_deref_overflow_regression.
 
 (* a slice reaches the very cell that indexing the array at the denoted position reaches *)
 Theorem slice_aliases : forall exts r idx,
@@ -142,10 +243,24 @@ Theorem slice_aliases : forall exts r idx,
 Proof. exact SliceRangeProofs.slice_aliases. Qed.
 Print Assumptions slice_aliases.
 
+(* SLICE_DEREF on a slice of an array the VM has created: no hypothesis on the product *)
+Theorem mk_array_slice_deref_spec : forall exts dv elems r idx,
+  Forall is_s32 exts -> mk_array exts = Ok (dv, elems) ->
+  range_s32 r -> Forall is_s32 idx -> length r = length exts -> length idx = length exts ->
+  let s := Some {| sl_arr := Some dv; sl_range := Some r |} in
+  (idx_in_ranges r idx -> in_range exts (ranges_nth r idx) ->
+     slice_deref s idx = Ok (row_major exts (ranges_nth r idx)) /\
+     0 <= row_major exts (ranges_nth r idx) < elems /\
+     slice_deref s idx = array_deref (Some dv) (ranges_nth r idx)) /\
+  (idx_in_ranges r idx -> ~ in_range exts (ranges_nth r idx) ->
+     exists d, slice_deref s idx = Exc (IndexOob d)) /\
+  (~ idx_in_ranges r idx -> exists d, slice_deref s idx = Exc (IndexOob d)).
+Proof. exact SliceRangeProofs.mk_array_slice_deref_spec. Qed.
+Print Assumptions mk_array_slice_deref_spec.
+
 (* a[r1][r2][idx] = a[r1][ r2[idx] ] *)
 Theorem slice_slice_assoc : forall dv r1 r2 idx s2,
   range_s32 r1 -> range_s32 r2 -> Forall is_s32 idx -> length r1 = length r2 ->
-  inner_ok r1 r2 ->
   slice_slice (Some {| sl_arr := Some dv; sl_range := Some r1 |}) (Some r2) = Ok s2 ->
   idx_in_ranges r2 idx ->
   slice_deref (Some s2) idx =
@@ -188,10 +303,14 @@ Theorem shape_conformance : forall e1 e2,
      forall w r1 r2, In (w, r1, r2) (acc_reads acc) ->
        0 <= r1 < a_elems (new_arr e1) /\ 0 <= r2 < a_elems (new_arr e2) /\ 0 <= w < a_elems (new_arr e2)) /\
   (can_mult a1 a2 = true <-> exists m k n, e1 = [m; k] /\ e2 = [k; n]) /\
-  (arr_matmul a1 a2 = Exc WrongArraySize <-> ~ exists m k n, e1 = [m; k] /\ e2 = [k; n]) /\
-  (forall m k n, e1 = [m; k] -> e2 = [k; n] -> 0 < m -> 0 < k -> 0 < n ->
-     m * k < two32 -> k * n < two32 -> m * n < two32 ->
-     exists acc, arr_matmul a1 a2 = Ok acc /\ acc_shape acc = [m; n] /\
+  ((~ exists m k n, e1 = [m; k] /\ e2 = [k; n]) -> arr_matmul a1 a2 = Exc WrongArraySize) /\
+  (forall m k n, e1 = [m; k] -> e2 = [k; n] -> 0 < m -> 0 < n ->
+     (arr_matmul a1 a2 = Exc WrongArraySize <-> two32 <= m * n) /\
+     (m * n < two32 -> exists acc, arr_matmul a1 a2 = Ok acc)) /\
+  (forall m k n acc, e1 = [m; k] -> e2 = [k; n] -> 0 < m -> 0 < k -> 0 < n ->
+     m * k < two32 -> k * n < two32 ->
+     arr_matmul a1 a2 = Ok acc ->
+     acc_shape acc = [m; n] /\ m * n < two32 /\ a_elems (new_arr [m; n]) = m * n /\
        forall w r1 r2, In (w, r1, r2) (acc_reads acc) ->
          0 <= r1 < a_elems (new_arr e1) /\ 0 <= r2 < a_elems (new_arr e2) /\
          0 <= w < a_elems (new_arr [m; n])) /\
@@ -199,6 +318,16 @@ Theorem shape_conformance : forall e1 e2,
    arr_matmul None a2 = Exc NilPointer /\ arr_matmul a1 None = Exc NilPointer).
 Proof. exact ShapesProofs.shape_conformance. Qed.
 Print Assumptions shape_conformance.
+
+(* regression, matrix-product variant of array_deref:extent-product-overflow: the 65536 x 65536
+   result of [65536 x 1] * [1 x 65536] got 0 cells and the handler stored through a NULL value[] *)
+Theorem matmul_overflow_regression :
+  arr_matmul (Some (new_arr [65536; 1])) (Some (new_arr [1; 65536])) = Exc WrongArraySize /\
+  arr_matmul (Some (new_arr [65537; 2])) (Some (new_arr [2; 65537])) = Exc WrongArraySize /\
+  arr_matmul (Some (new_arr [3; 1])) (Some (new_arr [1; 1431655766])) = Exc WrongArraySize /\
+  (exists acc, arr_matmul (Some (new_arr [3; 1])) (Some (new_arr [1; 4])) = Ok acc /\ acc_shape acc = [3; 4]).
+Proof. exact ShapesProofs.matmul_overflow_regression. Qed.
+Print Assumptions matmul_overflow_regression.
 
 (* results of add/sub, negation, scalar multiple (copied shape: object_arr_copy /
    object_arr_dim_copy) and of the matrix product carry the dimension vector of a freshly
@@ -227,9 +356,9 @@ Example dim_addr_oob_example :
 Proof. exact ArrIndexProofs.dim_addr_oob_example. Qed.
 
 Example slice_range_denotes_example :
-  is_s32 10 /\ is_s32 3 /\ compose_ok 10 5 1 /\
+  is_s32 10 /\ is_s32 3 /\
   get_slice_range 10 3 5 1 = (5, 9, false) /\
-  get_slice_range 10 3 1 8 = (9, 2, true) /\
+  get_slice_range 10 3 1 8 = (0, 0, true) /\
   get_slice_range 2 7 1 3 = (3, 5, false) /\ get_slice_range 2 7 3 1 = (5, 3, false) /\
   get_slice_range 7 2 1 3 = (6, 4, false).
 Proof. exact SliceRangeProofs.slice_range_denotes_example. Qed.
@@ -245,7 +374,7 @@ Proof. exact SliceRangeProofs.slice_deref_example. Qed.
 
 Example slice_slice_example :
   let r1 := [(1, 6)] in let r2 := [(4, 2)] in
-  range_s32 r1 /\ inner_ok r1 r2 /\ inner_within r1 r2 /\
+  range_s32 r1 /\ inner_within r1 r2 /\
   compose_ranges r1 r2 = Ok [(5, 3)] /\ idx_in_ranges r2 [1] /\
   ranges_nth [(5, 3)] [1] = ranges_nth r1 (ranges_nth r2 [1]).
 Proof. exact SliceRangeProofs.slice_slice_example. Qed.
